@@ -21,7 +21,11 @@ func (g *G) variations(thorough bool) {
 			f := a.frame()
 			f[pos] ^= 1 << uint(r.Intn(8))
 			q.phy = sp(hex.EncodeToString(f))
-			g.run(t, q, "IWrongMIC", "join-wrong-mic", fmt.Sprintf("join:wrong-mic:flipped-byte=%d:%s", pos, a.describe()), nil)
+			intent := "IWrongMIC"
+			if pos >= 9 && pos <= 16 {
+				intent = "IMember" // a flipped DevEUI octet: the frame is of another DevEUI than the member names - refused (Other) before the MIC is looked at
+			}
+			g.run(t, q, intent, "join-wrong-mic", fmt.Sprintf("join:wrong-mic:flipped-byte=%d:%s", pos, a.describe()), nil)
 		}
 		{ // MIC computed with another device's key
 			a := g.randomAct(kJoin)
@@ -263,12 +267,33 @@ func (g *G) variations(thorough bool) {
 			t, q := a.table(), g.request(&a)
 			t.devices = append(t.devices, devEntry{eui: b.dev.devEUI, kind: found, nwk: b.dev.nwkKey, app: b.dev.appKey, joinNonce: b.joinNonce})
 			q.devEUI = sp(hex.EncodeToString(b.dev.devEUI[:]))
-			g.run(t, q, "INone", "ids-odd", "ids:json-deveui-of-another-device:"+a.describe(), nil)
+			g.run(t, q, "IMember", "deveui-mismatch", "deveui-mismatch:join:other-keys:"+a.describe(), nil)
 			// same root keys for both: the MIC validates, keys are derived for the JSON DevEUI
 			t2, q2 := a.table(), g.request(&a)
 			t2.devices = append(t2.devices, devEntry{eui: b.dev.devEUI, kind: found, nwk: a.dev.nwkKey, app: a.dev.appKey, joinNonce: b.joinNonce})
 			q2.devEUI = sp(hex.EncodeToString(b.dev.devEUI[:]))
-			g.run(t2, q2, "INone", "ids-odd", "ids:json-deveui-other-same-keys:"+a.describe(), nil)
+			g.run(t2, q2, "IMember", "deveui-mismatch", "deveui-mismatch:join:same-keys:"+a.describe(), nil)
+		}
+		// ---- DevEUI member names another KNOWN device than the frame (second audit, finding 1): shared root keys (one
+		//      production batch) and own keys, join 1.1 / 1.0 and rejoin 0 / 1 / 2: must be refused, mirrored ----
+		for _, fl := range []struct {
+			kind   int
+			optneg bool
+		}{{kJoin, true}, {kJoin, false}, {kRejoin0, true}, {kRejoin1, true}, {kRejoin2, true}} {
+			for _, shared := range []bool{true, false} {
+				a, b := g.randomAct(fl.kind), g.randomAct(fl.kind)
+				a.dls &= 0x7f
+				if fl.optneg {
+					a.dls |= 0x80
+				}
+				if shared {
+					b.dev.nwkKey, b.dev.appKey = a.dev.nwkKey, a.dev.appKey
+				}
+				t, q := a.table(), g.request(&a)
+				t.devices = append(t.devices, devEntry{eui: b.dev.devEUI, kind: found, nwk: b.dev.nwkKey, app: b.dev.appKey, joinNonce: b.joinNonce})
+				q.devEUI = sp(g.hexText(b.dev.devEUI[:], true))
+				g.run(t, q, "IMember", "deveui-mismatch", fmt.Sprintf("deveui-mismatch:shared-keys=%v:member=%x:%s", shared, b.dev.devEUI, a.describe()), nil)
+			}
 		}
 		// ---- PHYPayload of the wrong message type / truncated / extended ----
 		for i := 0; i < 7; i++ {
@@ -363,9 +388,6 @@ func (g *G) malformed(thorough bool) {
 					val = "0a0b"
 				}
 				intent := "IMember" // a member of the typed payload: mirrored answer of the right type, not Success
-				if field == "SenderToken" {
-					intent = "IMalformed" // a member of the BASE payload: nothing decoded, bare error
-				}
 				switch how {
 				case "odd-length":
 					val = val[:len(val)-1]
@@ -417,12 +439,6 @@ func (g *G) malformed(thorough bool) {
 		{"number", "17"},
 		{"string", `"JoinReq"`},
 		{"trailing-comma", strings.TrimSuffix(good, "}") + ",}"},
-		{"transaction-id-string", strings.Replace(good, `"TransactionID":`, `"TransactionID":"7","X":`, 1)},
-		{"transaction-id-negative", strings.Replace(good, `"TransactionID":`, `"TransactionID":-1,"X":`, 1)},
-		{"transaction-id-2^32", strings.Replace(good, `"TransactionID":`, `"TransactionID":4294967296,"X":`, 1)},
-		{"transaction-id-fraction", strings.Replace(good, `"TransactionID":`, `"TransactionID":1.5,"X":`, 1)},
-		{"sender-id-number", strings.Replace(good, `"SenderID":`, `"SenderID":5,"X":`, 1)},
-		{"message-type-object", strings.Replace(good, `"MessageType":`, `"MessageType":{},"X":`, 1)},
 		{"not-json", "ProtocolVersion=1.0&MessageType=JoinReq"},
 	}
 	for _, b := range bad {
@@ -459,6 +475,49 @@ func (g *G) malformed(thorough bool) {
 			q.phy = nil
 		}
 		g.run(b.table(), q, "IMember", "member-bad-json-kind", fmt.Sprintf("member:%s:%s", m.name, b.describe()), nil)
+	}
+	// members of the BASE payload that are refused (second audit, finding 2): the other members are decoded, the answer
+	// is the mirrored message of the requested type; the refused member is the Go zero value in it
+	for i, m := range []struct{ name, member, raw string }{
+		{"transaction-id-string", "TransactionID", `"7"`}, {"transaction-id-negative", "TransactionID", "-1"},
+		{"transaction-id-2^32", "TransactionID", "4294967296"}, {"transaction-id-fraction", "TransactionID", "1.5"},
+		{"sender-id-number", "SenderID", "5"}, {"receiver-id-array", "ReceiverID", `["0102030405060708"]`},
+		{"message-type-object", "MessageType", "{}"},
+		{"sendertoken-number", "SenderToken", "5"}, {"receivertoken-odd-hex", "ReceiverToken", `"0"`}, {"receivertoken-not-hex", "ReceiverToken", `"zz"`},
+		{"vsextension-vendorid-not-hex", "VSExtension", `{"VendorID":"q"}`}, {"vsextension-string", "VSExtension", `"x"`},
+	} {
+		for _, flow := range []int{kJoin, kRejoin0 + i%3, -1} {
+			var q *req
+			var t *table
+			desc := "homens"
+			if flow < 0 {
+				var eui [8]byte
+				copy(eui[:], r.Bytes(8))
+				h := homeEntry{eui: eui, kind: found}
+				t = &table{home: []homeEntry{h}}
+				q = &req{sender: hex.EncodeToString(r.Bytes(3)), receiver: hex.EncodeToString(r.Bytes(8)), txid: r.U32(), mtype: "HomeNSReq",
+					devEUI: sp(hex.EncodeToString(eui[:])), omit: map[string]bool{"RxDelay": true}, null: map[string]bool{}}
+			} else {
+				b := g.randomAct(flow)
+				t, q = b.table(), g.request(&b)
+				desc = b.describe()
+			}
+			q.rawMember = map[string]string{m.member: m.raw}
+			intent := "IMember"
+			switch m.member { // the Coq request carries the zero value for the refused member
+			case "TransactionID":
+				q.txid = 0
+			case "SenderID":
+				q.sender = ""
+			case "ReceiverID":
+				q.receiver = ""
+			case "MessageType":
+				q.mtype, intent = "", "IMalformed" // no message type decoded: no answer type, bare error
+			case "SenderToken":
+				q.senderToken = nil
+			}
+			g.run(t, q, intent, "base-member-refused", fmt.Sprintf("base-member:%s:%s", m.name, desc), nil)
+		}
 	}
 	{ // HomeNSReq: DevEUI of the wrong kind; a wrong kind in a member HomeNSReq does not have is ignored
 		q := &req{sender: "010203", receiver: "0102030405060708", txid: 77, mtype: "HomeNSReq", rawMember: map[string]string{"DevEUI": "12"}, omit: map[string]bool{"RxDelay": true}, null: map[string]bool{}}
